@@ -267,7 +267,8 @@ def validate_trace(sc, module, trace_path, parallel=NCPU, timeout=900, constants
             except Exception:
                 a["event"] = None
             rejects.append(a)
-    return results, rejects, lines
+    # the recorder's closing "Held" event is judged like any line but is no test case: collectors do not see it
+    return results, rejects, [l for l in lines if '"ev":"Held"' not in l]
 
 
 # ------------------------------------------------------------------------------------------------
